@@ -17,6 +17,7 @@ pub mod c15;
 pub mod c16;
 #[cfg(feature = "hashable")]
 pub mod c18;
+pub mod c19;
 pub mod c17;
 
 pub struct Entry {
@@ -45,6 +46,7 @@ pub fn lookup(id: &str) -> Option<Entry> {
         "C17" => Entry { id: "C17", run: c17::run, replay: c17::replay },
         #[cfg(feature = "hashable")]
         "C18" => Entry { id: "C18", run: c18::run, replay: c18::replay },
+        "C19" => Entry { id: "C19", run: c19::run, replay: c19::replay },
         _ => return None,
     })
 }
